@@ -171,6 +171,38 @@ func (g *genState) newPod() *PodSpec {
 	if g.policy == "balloons" && r.Chance(0.2) {
 		ann[form("balloon.balloons."+rns)] = verifrt.Pick(r, []string{"bt0", "bt1", "default", "reserved"})
 	}
+	// container affinities (topology-aware): simple and full notation
+	if g.policy == "topology-aware" && r.Chance(0.12) {
+		key := "resource-policy.nri.io/" + verifrt.Pick(r, []string{"affinity", "anti-affinity"})
+		if r.Chance(0.5) {
+			ann[key] = "c0: [ c1, c2 ]\nc1: [ c0 ]\n"
+		} else {
+			ann[key] = "c0:\n  - scope:\n      key: pod/name\n      operator: Matches\n      values: [ \"p*\" ]\n    match:\n      key: name\n      operator: In\n      values: [ c1, c2 ]\n    weight: " + fmt.Sprint(r.Range(1, 50)) + "\n"
+		}
+	}
+	if g.prop == "C14" && r.Chance(0.5) {
+		// well-formed YAML in full notation, semantically off
+		key := "resource-policy.nri.io/" + verifrt.Pick(r, []string{"affinity", "anti-affinity"})
+		expr := func() string {
+			k := verifrt.Pick(r, []string{"name", "pod/name", "labels/app", ":", ":a", "::", ":,", ":ab", ":/pod/name/name", "", "pod/labels/", "/"})
+			op := verifrt.Pick(r, []string{"Equals", "In", "Exists", "Matches", "Foo", "", "AlwaysTrue", "NotIn", "MatchesAny"})
+			vals := verifrt.Pick(r, []string{"[]", "[ a ]", "[ a, b ]", "[ \"[\" ]", "[ \"\" ]"})
+			return fmt.Sprintf("{ key: %q, operator: %q, values: %s }", k, op, vals)
+		}
+		v := ""
+		for _, n := range []string{"c0", "c1", "c2"} {
+			if r.Chance(0.6) {
+				v += n + ":\n  - scope: " + expr() + "\n"
+				if r.Chance(0.8) {
+					v += "    match: " + expr() + "\n"
+				}
+				v += "    weight: " + verifrt.Pick(r, []string{"1", "0", "-5", "2147483647"}) + "\n"
+			}
+		}
+		if v != "" {
+			ann[key] = v
+		}
+	}
 	if g.prop == "C14" {
 		bad := []string{"", "{", "[1,2", "yes", "1e9", "-1", "true\n", "- a\n b", "\x00", "0-", "a,b,,", "999999999999999999999", "nil", "{\"a\":}", "duration: x", "- scope:\n    key: pod/name\n    operator: Foo\n", strings.Repeat("x", 5000)}
 		keys := []string{"prefer-shared-cpus", "prefer-isolated-cpus", "prefer-reserved-cpus", "hide-hyperthreads", "cpu.preserve", "memory.preserve", "memory-type", "cold-start", "affinity", "anti-affinity", "topologyhints", "allow.topologyhints", "deny.topologyhints", "prefer-cpu-priority", "rdtclass", "blockioclass", "balloon.balloons", "toptierlimit"}
